@@ -99,31 +99,42 @@ async def _session(loop, users, bases, tree, plan, first_login, payload):
                 tree0 = wd.tree()
                 n0 = len(spy.log)
                 c0 = len(raw.replies)
-                spy.delay = delay
+                if isinstance(delay, dict):
+                    # per backend call: {"is_file": 0.5, "*": 0.0} - one call is slow, the others are not
+                    spy.delay_fn = lambda name, shown, _d=delay: _d.get(name, _d.get("*", 0.0))
+                else:
+                    spy.delay = delay
                 raw.send_raw("".join(l + "\r\n" for l in lines_).encode())
                 await loop.settle()
                 got = None
-                verb0 = lines_[0].split(" ")[0]
+                transfers = [l.split(" ")[0].upper() for l in lines_ if l.split(" ")[0].upper() in ("RETR", "STOR", "APPE", "LIST", "MLSD")]
+                handled = 0
                 for _ in range(24):
                     finals = [c for c in codes_since(c0) if c >= 200]
-                    if raw.data is not None and 150 in codes_since(c0):
-                        dr, dw = raw.data
-                        if verb0 in ("STOR", "APPE"):
-                            dw.write(payload)
-                            dw.close()
-                        else:
-                            try:
-                                got = await asyncio.wait_for(dr.read(), 30)
-                            except Exception:  # noqa
-                                got = None
-                            dw.close()
-                        raw.data = None
-                        await loop.settle()
+                    if codes_since(c0).count(150) > handled:
+                        # one data connection per 150: the one made ahead for the first, a new one for each further mark
+                        if raw.data is None and not raw.eof and wd.connection_of(raw) is not None:
+                            await W.data_connect(wd, raw)
+                        if raw.data is not None:
+                            dr, dw = raw.data
+                            if handled < len(transfers) and transfers[handled] in ("STOR", "APPE"):
+                                dw.write(payload)
+                                dw.close()
+                            else:
+                                try:
+                                    got = (got or b"") + await asyncio.wait_for(dr.read(), 30)
+                                except Exception:  # noqa
+                                    pass
+                                dw.close()
+                            raw.data = None
+                            await loop.settle()
+                        handled += 1
                     if len(finals) >= len(lines_) or raw.eof:
                         break
                     await asyncio.sleep(0.25)
                     await loop.settle()
                 spy.delay = 0
+                spy.delay_fn = None
                 recs.append({"cmd": lines_[0], "pipe": list(lines_), "delay": delay, "state": st, "late": False, "replies": codes_since(c0), "data": got,
                              "pipe_calls": [(n, p) for _, n, p in spy.log[n0:]], "state_after": state(), "tree0": tree0, "tree1": wd.tree()})
                 continue
